@@ -174,6 +174,18 @@ def setCode (code : Bytes) : EM Bool := do
     pure false
   else pure true
 
+/-- the deferred calls of `runFirst`, in LIFO order: ResetFlag(DIRTY), ResetFlag(TERMINATE), st.Up(), ca.Pop(), and the
+page index put back to what it was before the detour -/
+def firstFinish (idx0 : Nat) : EM Unit := do
+  let _ ← vm (resetFlagM Facts.dirtyFlag)
+  let _ ← vm (resetFlagM Facts.terminateFlag)
+  let e ← get
+  match e.vm.st.up with
+  | .ok (_, st') => modify fun e => { e with vm := { e.vm with st := st' } }
+  | _ => pure ()
+  modify fun e => { e with vm := { e.vm with ca := e.vm.ca.pop.1 } }
+  modify fun e => { e with vm := { e.vm with st := { e.vm.st with sizeIdx := idx0 } } }
+
 /-- `runFirst`: returns whether to go on with the VM -/
 def runFirstBody (env : Env) (cfg : Cfg) (fn : Nat → Option Bytes → Option Bytes → ExtResult) : EM Bool := do
   let e ← get
@@ -194,16 +206,7 @@ def runFirstBody (env : Env) (cfg : Cfg) (fn : Nat → Option Bytes → Option B
     let code := newLine Facts.opLOAD [firstSym] (some [0]) none ++ newLine Facts.opHALT [] none none
     let (r, pvm') := runLoop env' cfg.fuel (langOfEng e) code pvm
     modify fun e => { e with vm := { e.vm with st := pvm'.st, ca := pvm'.ca, ghost := pvm'.ghost } }
-    -- the deferred calls, in LIFO order: ResetFlag(DIRTY), ResetFlag(TERMINATE), st.Up(), ca.Pop(), page index restored
-    let finish : EM Unit := do
-      let _ ← vm (resetFlagM Facts.dirtyFlag)
-      let _ ← vm (resetFlagM Facts.terminateFlag)
-      let e ← get
-      match e.vm.st.up with
-      | .ok (_, st') => modify fun e => { e with vm := { e.vm with st := st' } }
-      | _ => pure ()
-      modify fun e => { e with vm := { e.vm with ca := e.vm.ca.pop.1 } }
-      modify fun e => { e with vm := { e.vm with st := { e.vm.st with sizeIdx := idx0 } } }
+    let finish : EM Unit := firstFinish idx0
     match r with
     | .panic p => fun e => (.panic p, e)
     | .err k m => do
